@@ -495,6 +495,96 @@ func muxScenario(id string, seed uint64) runner.Result {
 	return res
 }
 
+// manyShort: a long history on one multiplexer: hundreds to thousands of connections that hang up
+// before their prefix is complete (port scans, health checks), one after the other, with a complete
+// connection now and then. Every short connection must be closed, every complete one delivered to
+// its route with its payload, however many came before.
+func manyShort(id string, seed uint64, n int) runner.Result {
+	r := &payload.SplitMix{S: seed}
+	plen := []int{1, 4, 8}[r.Intn(3)]
+	base := newBase()
+	mux := drpcmigrate.NewListenMux(base, plen)
+	ctx, cancel := context.WithCancel(context.Background())
+	defer cancel()
+	prefix := string(bytes.Repeat([]byte{'A'}, plen))
+	route := mux.Route(prefix)
+	runOp := rig.Go("Run", func() (interface{}, error) { return nil, mux.Run(ctx) })
+	var mu sync.Mutex
+	got := map[string][]byte{}
+	accept := func(name string, l net.Listener) *rig.Op {
+		return rig.Go("accept:"+name, func() (interface{}, error) {
+			for {
+				c, err := l.Accept()
+				if err != nil {
+					return nil, err
+				}
+				data, _ := readAllSmall(c, []int{512})
+				mu.Lock()
+				got[name+"/"+c.LocalAddr().String()] = data
+				mu.Unlock()
+				census.Bump()
+			}
+		})
+	}
+	acc := []*rig.Op{accept("route", route), accept("default", mux.Default())}
+	desc := fmt.Sprintf("plen=%d: %d connections one after the other, most of them hang up with fewer than %d bytes sent, every %dth is complete", plen, n, plen, 97)
+	var fails []string
+	complete := 0
+	for i := 0; i < n && len(fails) == 0; i++ {
+		pair := simnet.New(simnet.Opts{Cap: -1})
+		pair.B.Role = fmt.Sprintf("srv%d", i)
+		full := i%97 == 96 || i == n-1
+		var pl []byte
+		if full {
+			pl = payload.Make(uint64(i), 0, 0, 0, r.Intn(40))
+			pair.A.Write(append([]byte(prefix), pl...))
+		} else if k := r.Intn(plen); k > 0 {
+			pair.A.Write([]byte(prefix)[:k])
+		}
+		pair.A.Close()
+		base.ch <- pair.B
+		// in batches: the multiplexer comes to rest, then everything handed over so far is judged
+		if !full && i%50 != 49 {
+			continue
+		}
+		if ok, snap := census.Quiesce(rig.Watchdog); !ok {
+			return runner.Inconcl(id, "watchdog")
+		} else if full {
+			complete++
+			mu.Lock()
+			data, ok := got["route/"+pair.B.Role]
+			mu.Unlock()
+			switch {
+			case !ok:
+				fails = append(fails, fmt.Sprintf("connection #%d sent the registered prefix and its payload after %d earlier connections, and was not delivered to the route's listener at quiescence (closed by the multiplexer: %v)\n%s", i+1, i, pair.B.CloseCount() > 0, census.Dump(census.InDRPC(snap))))
+			case !bytes.Equal(data, pl):
+				fails = append(fails, fmt.Sprintf("connection #%d: the route's listener read %d bytes, want the %d payload bytes", i+1, len(data), len(pl)))
+			}
+		} else if pair.B.CloseCount() == 0 {
+			fails = append(fails, fmt.Sprintf("connection #%d hung up before its prefix was complete and the running multiplexer has neither delivered nor closed it at quiescence\n%s", i+1, census.Dump(census.InDRPC(snap))))
+		}
+	}
+	cancel()
+	census.Quiesce(rig.Watchdog)
+	if len(fails) == 0 {
+		if !runOp.Returned() {
+			fails = append(fails, "Run has not returned after the multiplexer was stopped")
+		}
+		for _, op := range acc {
+			if !op.Returned() {
+				fails = append(fails, "an Accept is still blocked after the multiplexer was stopped")
+			}
+		}
+	}
+	if len(fails) > 0 {
+		return runner.Violation(id, "mux:long-history:"+keyOf(fails[0]), desc+"\n"+strings.Join(fails, "\n"))
+	}
+	res := runner.Hold(id, desc, true)
+	res.Events = int64(n)
+	res.Stats = map[string]int64{"conns": int64(n), "delivered": int64(complete)}
+	return res
+}
+
 // registeredBefore reports whether the route for the client's prefix was
 // registered before the client connection was handed to the base listener.
 func registeredBefore(steps []string, c *client) bool {
@@ -842,6 +932,15 @@ func gen(tier string, seed uint64) []runner.Scenario {
 	if tier == "thorough" {
 		n = 60000
 	}
+	longs := []int{1500}
+	if tier == "thorough" {
+		longs = []int{300, 1100, 2100, 4200, 9000, 20000, 70000}
+	}
+	for i, k := range longs {
+		i, k := i, k
+		id := fmt.Sprintf("mux-long-history/%d", k)
+		out = append(out, runner.Scenario{ID: id, Run: func() runner.Result { return manyShort(id, payload.Hash(seed, 0x164, uint64(i)), k) }})
+	}
 	for i := 0; i < n; i++ {
 		i := i
 		id := fmt.Sprintf("mux/%d", i)
@@ -864,7 +963,7 @@ func main() {
 	runner.Main(runner.Check{
 		Property: "C16",
 		Level:    "exploration",
-		Rule:     "mux case: prefix length in {1,4,8}, 0-3 routes registered before or between connections, 2-9 client connections whose bytes (prefix+tagged payload, or fewer bytes than the prefix) are written in seeded splits incl. inside the prefix and then closed, listeners with and without an acceptor (also started late), route listeners closed at seeded moments, the multiplexer stopped by context cancel or base Close at a seeded moment; ledger: delivered exactly once to the right listener with the right bytes, or closed; every Accept returned an error and Run returned at quiescence. header case: 1-3 concurrent writers x 1-3 writes (empty first writes), 4 header strings, the first underlying write optionally parked; header-with-io-copy: 1-3 steps each a Write or an io.Copy into the header connection from a source with or without WriteTo, over an underlying connection with or without ReadFrom. Non-trivial: at least one connection delivered / any header case. Distinct: by step history.",
+		Rule:     "mux case: prefix length in {1,4,8}, 0-3 routes registered before or between connections, 2-9 client connections whose bytes (prefix+tagged payload, or fewer bytes than the prefix) are written in seeded splits incl. inside the prefix and then closed, listeners with and without an acceptor (also started late), route listeners closed at seeded moments, the multiplexer stopped by context cancel or base Close at a seeded moment; ledger: delivered exactly once to the right listener with the right bytes, or closed; every Accept returned an error and Run returned at quiescence. mux-long-history: 1500 (thorough: up to 70000) connections one after the other on one multiplexer, most hanging up inside the prefix, every 97th complete: each short one closed, each complete one delivered with its payload. header case: 1-3 concurrent writers x 1-3 writes (empty first writes), 4 header strings, the first underlying write optionally parked; header-with-io-copy: 1-3 steps each a Write or an io.Copy into the header connection from a source with or without WriteTo, over an underlying connection with or without ReadFrom. Non-trivial: at least one connection delivered / any header case. Distinct: by step history.",
 		Assumptions: []string{
 			"clients always finish writing and close (a peer that never sends its prefix keeps a routing goroutine waiting by design)",
 			"a connection whose route was closed by the application at some point may be delivered to that route, to the default listener (with its prefix) or closed; a connection whose route was registered only after it arrived may go to either",
